@@ -36,7 +36,7 @@ CHECKS = {
    note="Countback oracle and jump-off bookkeeping are the model's; jump-offs with passes or skipped attempts and competitions where nobody cleared anything are followed but not judged (text silent)."),
  "C08": dict(engine="hjsim", design_ref="DESIGN.md 4.5",
    technique="deterministic simulation with crash/recover fault injection: rebuild from the action log (then lock-step shadow) or from the exported card at seeded points, and seeded re-scheduling of the jumping order",
-   text="Seeded histories (as C02, heckled) with injected recoveries: from_actions() replicas must equal the original snapshot and stay equal call for call for the rest of the run; to_matrix()/from_matrix() round trips must reproduce state, heights, bests, places and cards modulo pass marks; the accepted history re-executed under 4 fixed adversarial and several seeded random per-height interleavings must be accepted call for call and end in the same cards, state, bests and places. Sampling, not proof (quick 1.6e5 histories with ~3e6 recoveries/re-schedules, thorough 2e6 histories).",
+   text="Seeded histories (as C02, heckled) with injected recoveries: from_actions() replicas must equal the original snapshot and stay equal call for call for the rest of the run; to_matrix()/from_matrix() round trips must reproduce state, heights, bests, places and cards modulo pass marks; the accepted history re-executed under 4 fixed adversarial and several seeded random per-height interleavings must be accepted call for call and end in the same cards, state, bests and places. Sampling, not proof (quick 1.3e5 histories with ~3e6 recoveries/re-schedules incl. every interleaving of the current height when there are at most 24, thorough 2e6 histories).",
    note="Equality is over public observables only (state, heights, bar, log, trials, cards, bests, places); private flags are compared indirectly through the lock-step continuation."),
  "C19": dict(engine="schemasim", design_ref="DESIGN.md 5",
    technique="deterministic simulation: seeded call histories in processes forked from a pristine importer, per-call oracle = the same call made first in a fresh process; file-open and socket seams (network permanently partitioned)",
